@@ -51,7 +51,7 @@ def _ethertype(child, body):
   if k == "mpls" and v == "mc":
     return 0x8848
   if k == "llc":
-    return len(body)          # 802.3 length field
+    return min(len(body), 1500)   # 802.3 length field (deep nests: any value below 1536 means "length")
   return ETYPE[k]
 
 
@@ -106,21 +106,23 @@ def h_ip4(v, body, child, parent):
 
 
 IP6EXT = {"plain": [], "hbh": [0], "rt": [43], "dst": [60], "frag": [44],
-          "hbhdst": [0, 60], "nonext": []}
+          "hbhdst": [0, 60], "nonext": [],
+          "dstx20": [60] * 20, "dstx180": [60] * 180, "dstx1100": [60] * 1100, "dstx8000": [60] * 8000}
 
 
 def h_ip6(v, body, child, parent):
   last = 59 if v == "nonext" else IPPROTO[child[0]]
   chain = IP6EXT[v]
-  ext = b""
+  ext = []
   for i, t in enumerate(chain):
     nh = chain[i + 1] if i + 1 < len(chain) else last
     if t == 44:
-      ext += struct.pack("!BBHI", nh, 0, 0, 0x1234)
+      ext.append(struct.pack("!BBHI", nh, 0, 0, 0x1234))
     elif t == 43:
-      ext += struct.pack("!BBBBI", nh, 0, 2, 0, 0)
+      ext.append(struct.pack("!BBBBI", nh, 0, 2, 0, 0))
     else:
-      ext += struct.pack("!BB", nh, 0) + bytes([1, 4, 0, 0, 0, 0])     # PadN
+      ext.append(struct.pack("!BB", nh, 0) + bytes([1, 4, 0, 0, 0, 0]))     # PadN
+  ext = b"".join(ext)
   first = chain[0] if chain else last
   h = struct.pack("!IHBB", 6 << 28, len(ext) + len(body), first, 64)
   return h + IP6_SRC + IP6_DST + ext
@@ -395,6 +397,13 @@ HDR = {"eth": h_eth, "vlan": h_vlan, "llc": h_llc, "mpls": h_mpls, "arp": h_arp,
        "lldp": h_lldp, "eapol": h_eapol, "eap": h_eap, "icmp6": h_icmp6,
        "echo6": h_echo6, "unreach6": h_unreach6, "toobig": h_toobig,
        "timex6": h_timex6, "rs": h_rs, "ra": h_ra, "ns": h_ns, "na": h_na}
+
+
+def expand(desc):
+  """the full stack of a frame description: st + unit * n + post (deeply nested frames are
+  described by a repeated group of layers)"""
+  f = lambda x: [[l["k"], l["v"]] for l in x]
+  return f(desc["st"]) + f(desc.get("unit", [])) * desc.get("n", 0) + f(desc.get("post", []))
 
 
 def build(stack, plen=0, pad=0):
